@@ -107,7 +107,7 @@ def r1_one_name(ctx):
                 tgt = a.targets[0].id if isinstance(a.targets[0], ast.Name) else None
                 # used in the membership test
                 for n in walk_local(roles.loop):
-                    if isinstance(n, ast.Compare) and isinstance(n.left, ast.Name) and n.left.id == tgt and isinstance(n.ops[0], ast.In):
+                    if isinstance(n, ast.Compare) and isinstance(n.left, ast.Name) and n.left.id == tgt and isinstance(n.ops[0], (ast.In, ast.NotIn)):
                         okd = True
     ctx.check(okd, 'C15.R1', f'{func_label(fn)}|delete-matches-parsed-name', loc(fn, roles.loop), 'delete matches requested names against parse_snapshot_location(path).name of each listed snapshot', 'delete no longer matches requested names against the parsed snapshot name')
 
